@@ -397,7 +397,23 @@ def to_z3(v, ty):
                 return v.z
             if v.elem.kind == 'rec' and ty.elem.kind == 'rec' and ty.elem.name in UNIONS \
                     and v.elem.name in UNIONS[ty.elem.name].members:
-                raise VError('list upcast to union list needs a map; build the list with the union element type')
+                # list literal of one member class used as a list of the union: rebuilt element-wise
+                rec_sort(ty.elem.name)
+                cons = UNIONS[ty.elem.name].cons[v.elem.name]
+                leaves, todo = [], [z3.simplify(v.z)]
+                while todo:
+                    x = todo.pop()
+                    if z3.is_app(x) and x.decl().kind() == z3.Z3_OP_SEQ_CONCAT:
+                        todo.extend(reversed(x.children()))
+                    elif z3.is_app(x) and x.decl().kind() == z3.Z3_OP_SEQ_UNIT:
+                        leaves.append(z3.Unit(cons(x.arg(0))))
+                    elif z3.is_app(x) and x.decl().kind() == z3.Z3_OP_SEQ_EMPTY:
+                        continue
+                    else:
+                        raise VError('list upcast to a union list is only supported for list literals')
+                if not leaves:
+                    return z3.Empty(sort_of(ty))
+                return leaves[0] if len(leaves) == 1 else z3.Concat(*leaves)
     elif k == 'tuple':
         if isinstance(v, VTuple) and len(v.items) == len(ty.items):
             s = sort_of(ty)
